@@ -222,6 +222,12 @@ class ScoreDur(Stream):
         _ = edited.duration, [c.duration for c in edited.chords]
         edited[0] = chords[-1] * 2 if not isinstance(chords[-1] * 2, Score) else (chords[-1] * 2).chords[0]
         out["edited"] = [F(edited.duration), sum((F(c.duration) for c in edited.chords), F(0)), F(Score(list(edited.chords)).duration)]
+        # a score that carries a pickup in its config (as annotations starting after beat 1 do) still lasts the sum of its chords
+        pk = Score(list(chords), config={"pickup": case["k"]}) if "config" in Score.__init__.__code__.co_varnames else None
+        out["pickup"] = None if pk is None else [F(pk.duration), F((pk + pk).duration), F((pk * 2).duration)]
+        # a chord without parts takes exactly the duration it is given
+        d = F(case["k"], 12) + F(1, 16)
+        out["empty_chord"] = [F(Chord(0, tonality=None).set_duration(d).duration), d]
         return out
 
     def term(self, case, r):
@@ -246,6 +252,11 @@ class ScoreDur(Stream):
             return {"sig": "chord-augment-not-per-note", "msg": f"augment({k}): {r['aug_chord']} expected {want}"}
         if r["aug_score"] is not None and r["aug_score"] != want:
             return {"sig": "score-augment-not-per-note", "msg": f"augment({k}): {r['aug_score']} expected {want}"}
+        tot = sum(cd)
+        if r["pickup"] is not None and r["pickup"] != [tot, 2 * tot, 2 * tot]:
+            return {"sig": "score-duration-counts-pickup", "msg": f"score with config pickup: durations {r['pickup']}, chords sum to {tot}"}
+        if r["empty_chord"][0] != r["empty_chord"][1]:
+            return {"sig": "empty-chord-set-duration", "msg": f"set_duration({r['empty_chord'][1]}) on a chord without parts gives {r['empty_chord'][0]}"}
         if len(set(r["edited"])) != 1:
             return {"sig": "score-duration-stale-after-item-assignment", "msg": f"duration {r['edited'][0]}, sum of chords {r['edited'][1]}, rebuilt {r['edited'][2]}"}
         return None
